@@ -5,8 +5,11 @@ import CklVerif.Lemmas.C13NoHost
 
   * `Node.positions n`       : every position stored in the AST `n` (all sub-terms included)
   * `NodeOK P n`             : every position stored in `n` satisfies `P`
-  * `State.positions s`      : every position stored in an AST that the state holds (closure bodies and
-                               parameter defaults of the closure cells of the heap)
+  * `RVal.positions v`       : the positions carried by a runtime value (control values `break` / `continue` /
+                               `return v`); `ValOK P v`: all of them satisfy `P`
+  * `State.positions s`      : every position stored in the state: in ASTs (closure bodies and parameter defaults
+                               of the closure cells of the heap) and in values (elements of list / set / map /
+                               object cells, variables of the frames)
   * `StOK P s`               : every such position satisfies `P`
   * `Loader.positions ld`    : every position stored in a module AST of the loader
 -/
@@ -176,78 +179,173 @@ theorem NodeOK.mono {P Q : Pos → Prop} (hPQ : ∀ p, P p → Q p) {n : Node} (
 theorem Node.own_pos_mem_and (es : List Node) (p : Pos) : p ∈ (Node.and es p).positions := by
   simp [Node.positions]
 
-/-! ### positions held by a state and by the loader -/
+/-! ### positions held by values, by a state and by the loader -/
 
-/-- positions of the ASTs a heap cell holds: body and parameter defaults of a closure -/
-def Cell.positions : Cell → List Pos
-  | .closure _ _ ds b _ => b.positions ++ Node.positionsL ds
+/-- positions carried by a runtime value: the control signals `break` / `continue` / `return v` carry the
+    position of the node that produced them -/
+def RVal.positions : RVal → List Pos
+  | .brk p => [p]
+  | .cont p => [p]
+  | .ret v p => p :: v.positions
   | _ => []
 
-/-- every position stored in an AST of the state (closure cells of the heap) -/
-def State.positions (s : State) : List Pos := s.heap.toList.flatMap Cell.positions
+/-- every position carried by the value satisfies `P` -/
+def ValOK (P : Pos → Prop) : RVal → Prop
+  | .brk p => P p
+  | .cont p => P p
+  | .ret v p => P p ∧ ValOK P v
+  | _ => True
+
+theorem valOK_iff (P : Pos → Prop) : ∀ v : RVal, ValOK P v ↔ ∀ p ∈ v.positions, P p
+  | .brk p => by simp [ValOK, RVal.positions]
+  | .cont p => by simp [ValOK, RVal.positions]
+  | .ret v p => by have := valOK_iff P v; simp_all [ValOK, RVal.positions]
+  | .null | .bool _ | .int _ | .dec _ _ | .str _ | .pat _ | .date _ | .ref _ | .closure _ | .native _ _ | .node _ => by
+    simp [ValOK, RVal.positions]
+
+theorem ValOK.triv : ∀ v : RVal, ValOK (fun _ => True) v
+  | .ret v _ => ⟨trivial, ValOK.triv v⟩
+  | .brk _ | .cont _ => trivial
+  | .null | .bool _ | .int _ | .dec _ _ | .str _ | .pat _ | .date _ | .ref _ | .closure _ | .native _ _ | .node _ => trivial
+
+/-- lists of values, map entries, and string-keyed dictionaries (object members, bound arguments,
+    the variables of a frame) -/
+def ValsOK (P : Pos → Prop) (xs : List RVal) : Prop := ∀ x ∈ xs, ValOK P x
+def PairsOK (P : Pos → Prop) (kvs : List (RVal × RVal)) : Prop := ∀ kv ∈ kvs, ValOK P kv.1 ∧ ValOK P kv.2
+def DictOK (P : Pos → Prop) (kvs : List (String × RVal)) : Prop := ∀ kv ∈ kvs, ValOK P kv.2
+
+/-- positions held by a heap cell: those carried by its elements; body and parameter defaults of a closure -/
+def Cell.positions : Cell → List Pos
+  | .list xs => xs.flatMap RVal.positions
+  | .set xs => xs.flatMap RVal.positions
+  | .map kvs => kvs.flatMap (fun kv => kv.1.positions ++ kv.2.positions)
+  | .obj kvs _ => kvs.flatMap (fun kv => kv.2.positions)
+  | .closure _ _ ds b _ => b.positions ++ Node.positionsL ds
+
+def Frame.positions (f : Frame) : List Pos := f.vars.flatMap (fun kv => kv.2.positions)
+
+/-- every position stored in the state: in the cells of the heap (elements, closure ASTs) and in the
+    variables of the frames -/
+def State.positions (s : State) : List Pos :=
+  s.heap.toList.flatMap Cell.positions ++ s.frames.toList.flatMap Frame.positions
 
 def CellOK (P : Pos → Prop) : Cell → Prop
+  | .list xs => ValsOK P xs
+  | .set xs => ValsOK P xs
+  | .map kvs => PairsOK P kvs
+  | .obj kvs _ => DictOK P kvs
   | .closure _ _ ds b _ => NodeOK P b ∧ NodesOK P ds
-  | _ => True
 
-/-- a cell that holds no AST -/
-def DataCell : Cell → Prop
-  | .closure _ _ _ _ _ => False
-  | _ => True
-
-theorem CellOK.ofData {P : Pos → Prop} {c : Cell} (h : DataCell c) : CellOK P c := by
-  cases c <;> first | exact trivial | exact h.elim
-
-theorem cellOK_iff (P : Pos → Prop) (c : Cell) : CellOK P c ↔ ∀ p ∈ c.positions, P p := by
-  cases c <;> simp [CellOK, Cell.positions, nodeOK_iff, nodesOK_iff, or_imp, forall_and]
-
-/-- every position stored in an AST of the state satisfies `P` -/
-def StOK (P : Pos → Prop) (s : State) : Prop := ∀ (a : Nat) (c : Cell), s.heap[a]? = some c → CellOK P c
-
-theorem stOK_iff (P : Pos → Prop) (s : State) : StOK P s ↔ ∀ p ∈ s.positions, P p := by
-  unfold StOK State.positions
+theorem valsOK_iff (P : Pos → Prop) (xs : List RVal) : ValsOK P xs ↔ ∀ p ∈ xs.flatMap RVal.positions, P p := by
   constructor
   · intro h p hp
-    rcases List.mem_flatMap.mp hp with ⟨c, hc, hpc⟩
-    rcases List.getElem?_of_mem hc with ⟨a, ha⟩
+    rcases List.mem_flatMap.mp hp with ⟨x, hx, hpx⟩
+    exact (valOK_iff P x).1 (h x hx) p hpx
+  · intro h x hx
+    exact (valOK_iff P x).2 (fun p hp => h p (List.mem_flatMap.mpr ⟨x, hx, hp⟩))
+
+theorem pairsOK_iff (P : Pos → Prop) (kvs : List (RVal × RVal)) :
+    PairsOK P kvs ↔ ∀ p ∈ kvs.flatMap (fun kv => kv.1.positions ++ kv.2.positions), P p := by
+  constructor
+  · intro h p hp
+    rcases List.mem_flatMap.mp hp with ⟨x, hx, hpx⟩
+    rcases List.mem_append.mp hpx with h1 | h1
+    · exact (valOK_iff P x.1).1 (h x hx).1 p h1
+    · exact (valOK_iff P x.2).1 (h x hx).2 p h1
+  · intro h x hx
+    exact ⟨(valOK_iff P x.1).2 (fun p hp => h p (List.mem_flatMap.mpr ⟨x, hx, List.mem_append_left _ hp⟩)),
+      (valOK_iff P x.2).2 (fun p hp => h p (List.mem_flatMap.mpr ⟨x, hx, List.mem_append_right _ hp⟩))⟩
+
+theorem dictOK_iff (P : Pos → Prop) (kvs : List (String × RVal)) :
+    DictOK P kvs ↔ ∀ p ∈ kvs.flatMap (fun kv => kv.2.positions), P p := by
+  constructor
+  · intro h p hp
+    rcases List.mem_flatMap.mp hp with ⟨x, hx, hpx⟩
+    exact (valOK_iff P x.2).1 (h x hx) p hpx
+  · intro h x hx
+    exact (valOK_iff P x.2).2 (fun p hp => h p (List.mem_flatMap.mpr ⟨x, hx, hp⟩))
+
+theorem cellOK_iff (P : Pos → Prop) (c : Cell) : CellOK P c ↔ ∀ p ∈ c.positions, P p := by
+  cases c with
+  | closure => simp [CellOK, Cell.positions, nodeOK_iff, nodesOK_iff, or_imp, forall_and]
+  | list xs => exact valsOK_iff P xs
+  | set xs => exact valsOK_iff P xs
+  | map kvs => exact pairsOK_iff P kvs
+  | obj kvs m => exact dictOK_iff P kvs
+
+def FrameOK (P : Pos → Prop) (f : Frame) : Prop := DictOK P f.vars
+
+theorem frameOK_iff (P : Pos → Prop) (f : Frame) : FrameOK P f ↔ ∀ p ∈ f.positions, P p :=
+  dictOK_iff P f.vars
+
+/-- every position stored in the state satisfies `P` -/
+structure StOK (P : Pos → Prop) (s : State) : Prop where
+  heap_ok : ∀ (a : Nat) (c : Cell), s.heap[a]? = some c → CellOK P c
+  frames_ok : ∀ (i : Nat) (f : Frame), s.frames[i]? = some f → FrameOK P f
+
+theorem forall_mem_array_toList {α} {Q : α → Prop} (xs : Array α) :
+    (∀ (i : Nat) (x : α), xs[i]? = some x → Q x) ↔ ∀ x ∈ xs.toList, Q x := by
+  constructor
+  · intro h x hx
+    rcases List.getElem?_of_mem hx with ⟨a, ha⟩
     rw [Array.getElem?_toList] at ha
-    exact (cellOK_iff P c).1 (h a c ha) p hpc
-  · intro h a c hac
-    refine (cellOK_iff P c).2 (fun p hp => h p (List.mem_flatMap.mpr ⟨c, ?_, hp⟩))
-    rw [← Array.getElem?_toList] at hac
-    exact List.mem_of_getElem? hac
+    exact h a x ha
+  · intro h i x hx
+    rw [← Array.getElem?_toList] at hx
+    exact h x (List.mem_of_getElem? hx)
+
+theorem stOK_iff (P : Pos → Prop) (s : State) : StOK P s ↔ ∀ p ∈ s.positions, P p := by
+  constructor
+  · intro h p hp
+    unfold State.positions at hp
+    rcases List.mem_append.mp hp with hp | hp
+    · rcases List.mem_flatMap.mp hp with ⟨c, hc, hpc⟩
+      exact (cellOK_iff P c).1 ((forall_mem_array_toList _).1 h.heap_ok c hc) p hpc
+    · rcases List.mem_flatMap.mp hp with ⟨f, hf, hpf⟩
+      exact (frameOK_iff P f).1 ((forall_mem_array_toList _).1 h.frames_ok f hf) p hpf
+  · intro h
+    constructor
+    · refine (forall_mem_array_toList _).2 (fun c hc => (cellOK_iff P c).2 (fun p hp => h p ?_))
+      exact List.mem_append_left _ (List.mem_flatMap.mpr ⟨c, hc, hp⟩)
+    · refine (forall_mem_array_toList _).2 (fun f hf => (frameOK_iff P f).2 (fun p hp => h p ?_))
+      exact List.mem_append_right _ (List.mem_flatMap.mpr ⟨f, hf, hp⟩)
 
 theorem StOK.cell {P : Pos → Prop} {s : State} (h : StOK P s) {a : Nat} {c : Cell} (hc : s.cell a = some c) :
-    CellOK P c := h a c hc
+    CellOK P c := h.heap_ok a c hc
 
 theorem StOK.closure {P : Pos → Prop} {s : State} (h : StOK P s) {a : Nat} {e ps ds b n}
     (hc : s.cell a = some (.closure e ps ds b n)) : NodeOK P b ∧ NodesOK P ds := h.cell hc
 
-theorem StOK.of_heap_eq {P : Pos → Prop} {s s' : State} (he : s'.heap = s.heap) (h : StOK P s) : StOK P s' := by
-  unfold StOK; rw [he]; exact h
+/-- the invariant depends on the heap and the frames only -/
+theorem StOK.of_eq {P : Pos → Prop} {s s' : State} (he : s'.heap = s.heap) (hf : s'.frames = s.frames)
+    (h : StOK P s) : StOK P s' := ⟨by rw [he]; exact h.heap_ok, by rw [hf]; exact h.frames_ok⟩
 
 theorem StOK.setCell {P : Pos → Prop} {s : State} (h : StOK P s) (a : Nat) {c : Cell} (hc : CellOK P c) :
     StOK P (s.setCell a c) := by
-  intro b d hbd
+  refine ⟨fun b d hbd => ?_, h.frames_ok⟩
   unfold State.setCell at hbd
   simp only [Array.getElem?_setIfInBounds] at hbd
   split at hbd
   · split at hbd
     · cases hbd; exact hc
     · cases hbd
-  · exact h b d hbd
+  · exact h.heap_ok b d hbd
 
 theorem StOK.alloc {P : Pos → Prop} {s : State} (h : StOK P s) {c : Cell} (hc : CellOK P c) :
     StOK P (s.alloc c).1 := by
-  intro b d hbd
+  refine ⟨fun b d hbd => ?_, h.frames_ok⟩
   unfold State.alloc at hbd
   simp only [Array.getElem?_push] at hbd
   split at hbd
   · cases hbd; exact hc
-  · exact h b d hbd
+  · exact h.heap_ok b d hbd
 
-theorem StOK.empty (P : Pos → Prop) : StOK P {} := by
-  intro a c h; simp at h
+theorem StOK.empty (P : Pos → Prop) : StOK P {} :=
+  ⟨fun a c h => by simp at h, fun i f h => by simp at h⟩
+
+/-- with the trivial set of positions every state satisfies the invariant -/
+theorem StOK.triv (s : State) : StOK (fun _ => True) s :=
+  (stOK_iff _ s).2 (fun _ _ => trivial)
 
 /-- every position stored in a module AST of the loader -/
 def Loader.positions (ld : Loader) : List Pos :=
